@@ -1031,12 +1031,25 @@ func liftFrom(fn *ssa.Function, call *ssa.Call, g *ssa.Function, onParam bool, c
 				fields = append(fields, k)
 			}
 			sort.Strings(fields)
-			lg := guard{fn: fn, iff: Giff, ret: Gret, decider: S.decider, fields: fields, cond: S.cond, pos: S.pos, passBlk: GpassBlk, inner: S.iff}
+			dec := S.decider
+			// a helper comparing against one of its parameters that this call binds to a constant: the same decision as
+			// the comparison with that constant written inline
+			if bo, isBo := S.cond.(*ssa.BinOp); isBo && !strings.HasSuffix(dec, " const") && !strings.HasSuffix(dec, " nil") && !strings.Contains(dec, " & ") {
+				if prm, isP := stripConv(bo.Y).(*ssa.Parameter); isP {
+					for i, gp := range g.Params {
+						if gp == prm && i < len(call.Call.Args) {
+							if _, isC := stripConv(call.Call.Args[i]).(*ssa.Const); isC {
+								dec += " const"
+							}
+						}
+					}
+				}
+			}
+			lg := guard{fn: fn, iff: Giff, ret: Gret, decider: dec, fields: fields, cond: S.cond, pos: S.pos, passBlk: GpassBlk, inner: S.iff}
 			if S.inner != nil {
 				lg.inner = S.inner
 			}
 			if !(coverG && guardCoversAccepts(S)) {
-				lg.decider = S.decider
 				lg.notCovering = true
 			}
 			out = append(out, lg)
